@@ -96,10 +96,11 @@ theorem fact_restore_order : seqRestore = ["fanSetPwm", "fanSetMode", "fanSetPwm
 /-- `UpdateFanSpeed`: compute, re-assert manual mode, write (model: `updateFanSpeed`) -/
 theorem fact_update_order : seqUpdate = ["calc", "manual", "setPwm"] := by decide
 
-/-- `Run` restores on every exit path of the control-loop actor and after a failed initialisation:
-    one `restore` after `runInit`, one before and one after the `update` inside the loop -/
+/-- `Run` restores on every exit path of the control-loop actor and on every start-up error path after
+    the initialisation sequence may have run: one `restore` after `runInit`, one each for the failing
+    second load / attach, and inside the loop one on `ctx.Done` and one after a failed `update` -/
 theorem fact_run_restores :
-    seqRun = ["runInit", "restore", "computePwmMap", "loop{", "loop{", "restore", "update", "restore"] := by decide
+    seqRun = ["runInit", "restore", "restore", "restore", "computePwmMap", "loop{", "loop{", "restore", "update", "restore"] := by decide
 
 /-- `RunDaemon`: the signal channel is registered and never closed nor unregistered, no actor panics,
     and the group is run exactly once -/
@@ -107,6 +108,47 @@ theorem fact_daemon_shape :
     seqDaemon.contains "signalNotify" = true ∧ seqDaemon.contains "close" = false ∧
     seqDaemon.contains "signalStop" = false ∧ seqDaemon.contains "panic" = false ∧
     (seqDaemon.filter (· == "groupRun")).length = 1 := by decide
+
+
+/-! ### C09: every syntactic crash site of the daemon-reachable packages is accounted for -/
+
+/-- The complete list of `panic(` / `ui.Fatal` / `os.Exit` / `log.Fatal` / `MustCompile` / unchecked type
+    assertion sites in the packages `RunDaemon` can reach. Disposition of each (why it cannot fire on a
+    sensor / fan fault at a control cycle):
+    * `RunDaemon` ui.Fatal ×2, FatalWithoutStacktrace, os.Exit ×2 — start-up failures and the final exit, before / after regulation;
+    * `configuration.*` — configuration loading, before the daemon starts;
+    * `DefaultFanController.Run` ui.Fatal — in the interrupt function, only for a non-nil actor error; the actor always returns nil;
+    * `NewFanController` ui.Fatal — start-up (unknown curve id; excluded by validation);
+    * `Snapshot*Map` type assertions — on the result of `reprint.This` of the same static type;
+    * `FunctionSpeedCurve.Evaluate` ui.Fatal — unknown function type; excluded by validation (C11);
+    * `findPlatform` MustCompile — constant pattern; `FatalWithoutStacktrace` os.Exit — its own definition;
+    * `CheckFilePermissionsForExecution` `info.Sys().(*syscall.Stat_t)` — Linux always supplies that type
+      (the nil `info` case after a non-not-exist stat error is the documented residual of C19);
+    * `FindFilesMatching` — used by `fan2go detect` only.
+    A change that adds a crash site on a daemon path (or removes one) changes the generated table and
+    breaks this theorem. -/
+theorem fact_crash_sites :
+    crashSites = [
+      ("internal/backend.go", "RunDaemon", "ui.Fatal", 0, ""),
+      ("internal/backend.go", "RunDaemon", "ui.Fatal", 1, ""),
+      ("internal/backend.go", "RunDaemon", "ui.FatalWithoutStacktrace", 2, ""),
+      ("internal/backend.go", "RunDaemon", "os.Exit", 3, ""),
+      ("internal/backend.go", "RunDaemon", "os.Exit", 4, ""),
+      ("internal/configuration/config.go", "DetectAndReadConfigFile", "ui.FatalWithoutStacktrace", 0, ""),
+      ("internal/configuration/config.go", "InitConfig", "os.Exit", 0, ""),
+      ("internal/configuration/config.go", "LoadConfig", "ui.Fatal", 0, ""),
+      ("internal/controller/controller.go", "DefaultFanController.Run", "ui.Fatal", 0, ""),
+      ("internal/controller/controller.go", "NewFanController", "ui.Fatal", 0, ""),
+      ("internal/curves/curve.go", "SnapshotSpeedCurveMap", "typeassert", 0, "map[string]SpeedCurve"),
+      ("internal/curves/functional.go", "FunctionSpeedCurve.Evaluate", "ui.Fatal", 0, ""),
+      ("internal/fans/common.go", "SnapshotFanMap", "typeassert", 0, "map[string]Fan"),
+      ("internal/hwmon/hwmon.go", "findPlatform", "MustCompile", 0, ""),
+      ("internal/sensors/common.go", "SnapshotSensorMap", "typeassert", 0, "map[string]Sensor"),
+      ("internal/ui/logging.go", "FatalWithoutStacktrace", "os.Exit", 0, ""),
+      ("internal/util/file.go", "CheckFilePermissionsForExecution", "typeassert", 0, "*syscall.Stat_t"),
+      ("internal/util/file.go", "FindFilesMatching", "ui.Fatal", 0, ""),
+      ("internal/util/file.go", "FindFilesMatching", "panic", 1, ""),
+      ("internal/util/file.go", "FindFilesMatching", "panic", 2, "")] := by decide
 
 /-! ### C18 / C19: exec sites -/
 
